@@ -68,8 +68,8 @@ theorem insert_step_L_case1 {st : PT} {T : ITree} {g : Path} {gi : Nat} {cg : Co
     {pk pv : Nat} {pr : ITree} {kg vg yi : Nat} {yl : ITree} {yk yv : Nat} {yr : ITree}
     (h : At st T g (.node gi cg (.node p .red pl pk pv pr) kg vg (.node yi .red yl yk yv yr)))
     (d2 : Dir) {z : Nat} {cz : Colour} {zl : ITree} {zk zv : Nat} {zr : ITree}
-    (hz : (ITree.node p .red pl pk pv pr).subtree [d2] = .node z cz zl zk zv zr) (f : Nat) :
-    ∃ st', rebalInsertLoop (f + 1) st z = rebalInsertLoop f st' gi ∧
+    (hz : (ITree.node p .red pl pk pv pr).subtree [d2] = .node z cz zl zk zv zr) :
+    ∃ st', (∀ f, rebalInsertLoop (f + 1) st z = rebalInsertLoop f st' gi) ∧
       At st' T g (.node gi .red (.node p .black pl pk pv pr) kg vg (.node yi .black yl yk yv yr)) := by
   have rz := (h.get [.L, d2] (by simpa using hz)).1
   have rp := (h.get [.L] rfl).1
@@ -78,7 +78,7 @@ theorem insert_step_L_case1 {st : PT} {T : ITree} {g : Path} {gi : Nat} {cg : Co
   simp only [List.dropLast, reduceCtorEq, if_false, ITree.subtree_L, ITree.subtree_root, ITree.rid_node,
     List.cons_ne_nil] at rz rp ry
   refine ⟨{ st with heap := setColor (setColor (setColor st.heap p .black) yi .black) gi .red }, ?_, ?_⟩
-  · simp [rebalInsertLoop, rz, rp, rg, ry]
+  · intro f; simp [rebalInsertLoop, rz, rp, rg, ry]
   · have h1 := h.setColor [.L] rfl .black
     have h2 := h1.setColor [.R] rfl .black
     have h3 := h2.setColor [] rfl .red
@@ -99,8 +99,8 @@ right at the grandparent; the loop then stops -/
 theorem insert_step_L_case3 {st : PT} {T : ITree} {g : Path} {gi : Nat} {cg : Colour} {p z : Nat} {zl : ITree}
     {zk zv : Nat} {zr : ITree} {pk pv : Nat} {pr : ITree} {kg vg : Nat} {Y : ITree}
     (h : At st T g (.node gi cg (.node p .red (.node z .red zl zk zv zr) pk pv pr) kg vg Y))
-    (hY : Y.col = .black) (f : Nat) :
-    ∃ st', rebalInsertLoop (f + 1) st z = rebalInsertLoop f st' z ∧
+    (hY : Y.col = .black) :
+    ∃ st', (∀ f, rebalInsertLoop (f + 1) st z = rebalInsertLoop f st' z) ∧
       At st' T g (.node p .black (.node z .red zl zk zv zr) pk pv (.node gi .red pr kg vg Y)) := by
   obtain ⟨rz, z0⟩ := h.get [.L, .L] rfl
   obtain ⟨rp, p0⟩ := h.get [.L] rfl
@@ -125,6 +125,7 @@ theorem insert_step_L_case3 {st : PT} {T : ITree} {g : Path} {gi : Nat} {cg : Co
   have h3 := h2.rotR [] rfl
   simp only [ITree.replace_root] at h3
   refine ⟨_, ?_, h3⟩
+  intro f
   simp [rebalInsertLoop, rz, rp, rg, ry, hzpr, setColor, Heap.get_set, hpz, Ne.symm hpz, hgp, Ne.symm hgp, hgz,
     Ne.symm hgz]
 /-- **case 2 then 3** (black uncle, `z` a right child), parent on the left: rotate left at the parent, then
@@ -132,8 +133,8 @@ recolour and rotate right at the grandparent; the loop then stops -/
 theorem insert_step_L_case2 {st : PT} {T : ITree} {g : Path} {gi : Nat} {cg : Colour} {p z : Nat} {zl : ITree}
     {zk zv : Nat} {zr : ITree} {pk pv : Nat} {pl : ITree} {kg vg : Nat} {Y : ITree}
     (h : At st T g (.node gi cg (.node p .red pl pk pv (.node z .red zl zk zv zr)) kg vg Y))
-    (hY : Y.col = .black) (f : Nat) :
-    ∃ st', rebalInsertLoop (f + 1) st z = rebalInsertLoop f st' p ∧
+    (hY : Y.col = .black) :
+    ∃ st', (∀ f, rebalInsertLoop (f + 1) st z = rebalInsertLoop f st' p) ∧
       At st' T g (.node z .black (.node p .red pl pk pv zl) zk zv (.node gi .red zr kg vg Y)) := by
   obtain ⟨rz, z0⟩ := h.get [.L, .R] rfl
   obtain ⟨rp, p0⟩ := h.get [.L] rfl
@@ -160,6 +161,7 @@ theorem insert_step_L_case2 {st : PT} {T : ITree} {g : Path} {gi : Nat} {cg : Co
   have h4 := h3.rotR [] rfl
   simp only [ITree.replace_root] at h4
   refine ⟨_, ?_, h4⟩
+  intro f
   simp [rebalInsertLoop, rz, rp, rg, ry, r1p, r1z, setColor, Heap.get_set, hzp, Ne.symm hzp, hgp, Ne.symm hgp, hgz,
     Ne.symm hgz]
 /-! ### the mirror images: parent on the right -/
@@ -168,8 +170,8 @@ theorem insert_step_R_case1 {st : PT} {T : ITree} {g : Path} {gi : Nat} {cg : Co
     {pk pv : Nat} {pr : ITree} {kg vg yi : Nat} {yl : ITree} {yk yv : Nat} {yr : ITree}
     (h : At st T g (.node gi cg (.node yi .red yl yk yv yr) kg vg (.node p .red pl pk pv pr)))
     (d2 : Dir) {z : Nat} {cz : Colour} {zl : ITree} {zk zv : Nat} {zr : ITree}
-    (hz : (ITree.node p .red pl pk pv pr).subtree [d2] = .node z cz zl zk zv zr) (f : Nat) :
-    ∃ st', rebalInsertLoop (f + 1) st z = rebalInsertLoop f st' gi ∧
+    (hz : (ITree.node p .red pl pk pv pr).subtree [d2] = .node z cz zl zk zv zr) :
+    ∃ st', (∀ f, rebalInsertLoop (f + 1) st z = rebalInsertLoop f st' gi) ∧
       At st' T g (.node gi .red (.node yi .black yl yk yv yr) kg vg (.node p .black pl pk pv pr)) := by
   have rz := (h.get [.R, d2] (by simpa using hz)).1
   have rp := (h.get [.R] rfl).1
@@ -181,7 +183,7 @@ theorem insert_step_R_case1 {st : PT} {T : ITree} {g : Path} {gi : Nat} {cg : Co
   simp only [ITree.ids_node, List.nodup_cons, List.mem_cons, List.mem_append, not_or, List.cons_append] at hnd
   have hpy : p ≠ yi := by intro e; have := h.nodupG; rw [e] at this; simp [List.nodup_append] at this
   refine ⟨{ st with heap := setColor (setColor (setColor st.heap p .black) yi .black) gi .red }, ?_, ?_⟩
-  · simp [rebalInsertLoop, rz, rp, rg, ry, hpy]
+  · intro f; simp [rebalInsertLoop, rz, rp, rg, ry, hpy]
   · have h1 := h.setColor [.R] rfl .black
     have h2 := h1.setColor [.L] rfl .black
     have h3 := h2.setColor [] rfl .red
@@ -190,8 +192,8 @@ theorem insert_step_R_case1 {st : PT} {T : ITree} {g : Path} {gi : Nat} {cg : Co
 theorem insert_step_R_case3 {st : PT} {T : ITree} {g : Path} {gi : Nat} {cg : Colour} {p z : Nat} {zl : ITree}
     {zk zv : Nat} {zr : ITree} {pk pv : Nat} {pl : ITree} {kg vg : Nat} {Y : ITree}
     (h : At st T g (.node gi cg Y kg vg (.node p .red pl pk pv (.node z .red zl zk zv zr))))
-    (hY : Y.col = .black) (f : Nat) :
-    ∃ st', rebalInsertLoop (f + 1) st z = rebalInsertLoop f st' z ∧
+    (hY : Y.col = .black) :
+    ∃ st', (∀ f, rebalInsertLoop (f + 1) st z = rebalInsertLoop f st' z) ∧
       At st' T g (.node p .black (.node gi .red Y kg vg pl) pk pv (.node z .red zl zk zv zr)) := by
   obtain ⟨rz, z0⟩ := h.get [.R, .R] rfl
   obtain ⟨rp, p0⟩ := h.get [.R] rfl
@@ -221,14 +223,15 @@ theorem insert_step_R_case3 {st : PT} {T : ITree} {g : Path} {gi : Nat} {cg : Co
   have h3 := h2.rotL [] rfl
   simp only [ITree.replace_root] at h3
   refine ⟨_, ?_, h3⟩
+  intro f
   simp [rebalInsertLoop, rz, rp, rg, ry, hzpl, hpY, setColor, Heap.get_set, hpz, Ne.symm hpz, hgp, Ne.symm hgp, hgz,
     Ne.symm hgz]
 
 theorem insert_step_R_case2 {st : PT} {T : ITree} {g : Path} {gi : Nat} {cg : Colour} {p z : Nat} {zl : ITree}
     {zk zv : Nat} {zr : ITree} {pk pv : Nat} {pr : ITree} {kg vg : Nat} {Y : ITree}
     (h : At st T g (.node gi cg Y kg vg (.node p .red (.node z .red zl zk zv zr) pk pv pr)))
-    (hY : Y.col = .black) (f : Nat) :
-    ∃ st', rebalInsertLoop (f + 1) st z = rebalInsertLoop f st' p ∧
+    (hY : Y.col = .black) :
+    ∃ st', (∀ f, rebalInsertLoop (f + 1) st z = rebalInsertLoop f st' p) ∧
       At st' T g (.node z .black (.node gi .red Y kg vg zl) zk zv (.node p .red zr pk pv pr)) := by
   obtain ⟨rz, z0⟩ := h.get [.R, .L] rfl
   obtain ⟨rp, p0⟩ := h.get [.R] rfl
@@ -260,6 +263,7 @@ theorem insert_step_R_case2 {st : PT} {T : ITree} {g : Path} {gi : Nat} {cg : Co
   have h4 := h3.rotL [] rfl
   simp only [ITree.replace_root] at h4
   refine ⟨_, ?_, h4⟩
+  intro f
   simp [rebalInsertLoop, rz, rp, rg, ry, r1p, r1z, hpY, setColor, Heap.get_set, hzp, Ne.symm hzp, hgp, Ne.symm hgp,
     hgz, Ne.symm hgz]
 
